@@ -218,7 +218,7 @@ def wrapped_function_soundness(ctx):
             try:
                 # truth: the plain function traced on placeholders, run through the exported model
                 pa, pb = ndx.array(shape=(3,), dtype=impl.dt(dt)), ndx.array(shape=(3,), dtype=impl.dt(dt))
-                arg = {"acc": pa} if nested else pa
+                arg = {"acc": pa.copy()} if nested else pa.copy()      # the function may update its argument in place
                 lazy = fn(arg, pb)
                 inputs = {"a": pa, "b": pb}
                 feeds = {**impl.feed("a", av, dt), **impl.feed("b", bv, dt)}
